@@ -8,7 +8,7 @@ from celmodel.expr import render_min
 from .common import (exec_case, rng_for, same_outcome, mismatch_kind, fmt_outcome, crash_sig, chunks, norm_log)
 
 RULE = ("the five macros (exists_one and existsOne, map with 2 and 3 arguments) over every list of length "
-        "0-4 (quick) / 0-6 (thorough) from a 3-symbol alphabet, random lists to length 50, maps with 0-4 keys; "
+        "0-4 (quick) / 0-6 (thorough) from a 3-symbol alphabet, random lists to length 50, maps with 0-4 keys (also keys of different kinds that print alike); long single-thread histories interleaving folds that raise inside the loop with nested folds of 20-90 thousand iterations each (about 5-10 million iterations per history in the quick tier, 40-80 million in the thorough tier); "
         "bodies: pure predicates / transforms, bodies raising on a chosen element, call-logging bodies, and a "
         "second macro nested in the body (same and different variable); observed outcome and ordered call log "
         "compared with Python folds with explicit early exit (map ranges: any key order); non-trivial = range "
@@ -76,6 +76,10 @@ def units(tier, seed):
         for i in range(0, len(lists), step):
             us.append(('lists', n, i, min(len(lists), i + step)))
     us.append(('maps',))
+    us.append(('mixedmaps', 0))
+    us.append(('mixedmaps', 1))
+    for i in range(2 if tier == 'quick' else 16):
+        us.append(('soak', i, 40 if tier == 'quick' else 300))
     us.append(('rangeexpr',))
     us.append(('chained',))
     for i in range(4 if tier == 'quick' else 48):
@@ -100,7 +104,7 @@ def judge(res, case, rec, e, fam, variables=None):
             outs, comp = all_outcomes(e, dict(variables or {}), cap=60)
             complete = complete and comp
             cands.extend(outs)
-            if e[1] not in ('exists_one', 'existsOne') and 'exists' not in repr(e[4]):
+            if 'exists' not in repr(e):
                 break
     except Unsupported:
         res.count("skipped:unsupported")
@@ -161,7 +165,7 @@ def run_unit(unit, drv, res, seed, tier):
         # the range is an operand: evaluated completely, once, in the enclosing scope, before the fold starts -
         # also when its element expressions mention a name the macro is about to bind
         ctx = [("x", I(10)), ("y", I(20)), ("l", ('l', [I(1), I(2), I(3)]))]
-        X, Y = ('id', 'x'), ('id', 'y')
+        Y = ('id', 'y')
         ranges = [
             ('list', [('bin', '+', X, lit(1)), ('bin', '+', X, lit(2)), ('bin', '+', X, lit(3))]),
             ('list', [Y, X, ('bin', '*', X, lit(2))]),
@@ -213,6 +217,90 @@ def run_unit(unit, drv, res, seed, tier):
                             items.append((outer, 'chain:map-then-' + outer[1], True))
         run_items(res, drv, items, 'chained')
         res.exhaustive_done['chained-macros'] = True
+    elif kind == 'mixedmaps':
+        # maps whose keys are of different kinds and partly print alike (1, 1u, '1', true, 'true'): every key is
+        # an element of the range in its own right
+        keys = [I(1), U(1), S('1'), B(True), S('true'), I(2), S('2')]
+        bodies_p = [('lit', B(True)), ('lit', B(False)), ('bin', '==', X, lit(1)), ('bin', '==', X, ('lit', S('1'))),
+                    ('bin', '==', X, X), ('bin', '!=', X, ('lit', B(True))), ('call', 't', [X, ('lit', B(True))]),
+                    ('call', 't', [X, ('bin', '==', X, ('lit', S('true')))]),
+                    ('bin', '||', ('bin', '==', X, lit(1)), ('bin', '==', X, ('lit', S('1'))))]
+        bodies_f = [X, ('list', [X]), ('call', 't', [X, X]), ('bin', '==', X, lit(1))]
+        idx = 0
+        for n in range(0, 5):
+            for ks in itertools.combinations(keys, n):
+                idx += 1
+                if idx % 2 != unit[1]:
+                    continue
+                rng_e = ('map', [(('lit', k), ('lit', S('v'))) for k in ks])
+                for mk in ('all', 'exists', 'exists_one', 'existsOne', 'filter'):
+                    for b in bodies_p:
+                        items.append((('macro', mk, rng_e, 'x', [b]), mk + ':mixedkeys', True))
+                for f in bodies_f:
+                    items.append((('macro', 'map', rng_e, 'x', [f]), 'map1:mixedkeys', True))
+                    items.append((('macro', 'map', rng_e, 'x', [bodies_p[2], f]), 'map2:mixedkeys', True))
+                    items.append((('mcall', ('macro', 'map', rng_e, 'x', [f]), 'size', []), 'map1:mixedkeys-size', True))
+                items.append((('mcall', ('macro', 'filter', rng_e, 'x', [('lit', B(True))]), 'size', []), 'filter:mixedkeys-size', True))
+        run_items(res, drv, items, 'mixedmaps')
+        res.exhaustive_done['maps-0-4-keys-of-mixed-kinds'] = True
+    elif kind == 'soak':
+        # one long history in one driver thread: macros whose body raises inside the loop (at every nesting
+        # level) interleaved with large folds (tens of thousands of iterations each, millions in total); every
+        # execution must give what the same program gives on first use - state left behind by an aborted
+        # or by a long fold (counters, budgets, depth trackers, caches) must not leak into later executions
+        rng = rng_for(seed, 'C10', 'soak', unit[1])
+        N = rng.choice([200, 250, 300])
+        ctx = [("r", ('l', [I(i) for i in range(N)])), ("h", I(N // 2))]
+        R, Y, H = ('id', 'r'), ('id', 'y'), ('id', 'h')
+        big = [
+            ('macro', 'all', R, 'x', [('macro', 'all', R, 'y', [('bin', '>=', Y, lit(0))])]),
+            ('mcall', ('macro', 'map', R, 'x', [('macro', 'exists_one', R, 'y', [('bin', '==', Y, X)])]), 'size', []),
+            ('mcall', ('macro', 'filter', R, 'x', [('macro', 'exists', R, 'y', [('bin', '==', Y, ('bin', '+', X, lit(1)))])]), 'size', []),
+            ('macro', 'exists_one', R, 'x', [('macro', 'all', R, 'y', [('bin', '<=', Y, X)])]),
+            ('mcall', ('macro', 'map', R, 'x', [('bin', '==', ('bin', '%', X, lit(7)), lit(0)), ('mcall', ('macro', 'filter', R, 'y', [('bin', '<', Y, X)]), 'size', [])]), 'size', []),
+        ]
+        raising = [
+            ('macro', 'map', ('list', [lit(1), lit(0), lit(2)]), 'x', [('bin', '/', lit(10), X)]),
+            ('macro', 'all', R, 'x', [('bin', '!=', ('bin', '/', lit(1), ('bin', '-', X, H)), lit(7))]),
+            ('macro', 'exists', R, 'x', [('bin', '>', ('mcall', ('macro', 'map', R, 'y', [('bin', '/', lit(1), ('bin', '-', ('bin', '+', Y, H), X))]), 'size', []), lit(1 << 40))]),
+            ('macro', 'filter', R, 'x', [('macro', 'exists_one', ('list', [X]), 'y', [('bin', '==', ('bin', '%', lit(1), ('bin', '-', Y, H)), lit(9))])]),
+            ('macro', 'all', lit(1), 'x', [('lit', B(True))]),
+            ('macro', 'map', R, 'x', [('bin', '==', X, H), ('bin', '+', X, ('lit', I(9223372036854775807)))]),
+        ]
+        seq = []
+        for rep in range(unit[2]):
+            seq.append(rng.choice(raising))
+            order = list(big)
+            rng.shuffle(order)
+            for b in order:
+                seq.append(b)
+                if rng.random() < 0.3:
+                    seq.append(rng.choice(raising))
+        cache = {}
+        cases = [exec_case(i, render_min(e), ctx) for i, e in enumerate(seq)]
+        out = drv.run(cases, 'soak')
+        iters = 0
+        for c, r, e in zip(cases, out, seq):
+            res.evaluations += 1
+            res.nt(c["src"] + '#%d' % c["id"])
+            obs = top_outcome(r)
+            if obs[0] == 'inconclusive':
+                res.inconclusive.append(str(obs[1])[:200])
+                continue
+            if c["src"] not in cache:
+                ev_outs, _comp = all_outcomes(e, dict(ctx), cap=4)
+                cache[c["src"]] = (ev_outs[0][0], getattr(ev_outs[0][1], "iters", 0))
+            exp, it = cache[c["src"]]
+            iters += it
+            res.count("soak_outcome:" + (obs[1] if obs[0] == 'err' else obs[0]))
+            if is_crash(obs):
+                res.violation(obs[0], 'macro history', crash_sig(obs), c, observed=list(obs))
+            elif not same_outcome(exp, obs):
+                res.violation(mismatch_kind(exp, obs), 'macro history', 'fold result differs late in a long history', cases[:c["id"] + 1],
+                              expected=fmt_outcome(exp), observed=fmt_outcome(obs),
+                              note="step %d of %d in one driver thread, about %d fold iterations before it" % (c["id"], len(cases), iters))
+        res.count("soak_iterations_model", iters)
+        res.count("soak_histories")
     elif kind == 'maps':
         keys = [I(0), I(1), I(2), S('a')]
         for n in range(0, 5):
@@ -240,6 +328,15 @@ def run_unit(unit, drv, res, seed, tier):
 
 
 def recheck(cases, out, res):
+    if len(cases) > 1:
+        # a history: the same program must give the same outcome at every step
+        first = {}
+        for c, r in zip(cases, out):
+            obs = top_outcome(r)
+            if c["src"] in first and not same_outcome(first[c["src"]], obs) and not is_crash(obs):
+                print("step", c["id"], c["src"][:120], "first:", fmt_outcome(first[c["src"]]), "now:", fmt_outcome(obs))
+                res.violation('history', 'replay', 'same program, different outcome later in the history', c)
+            first.setdefault(c["src"], obs)
     for c, r in zip(cases, out):
         obs = top_outcome(r)
         print("observed:", fmt_outcome(obs) if not is_crash(obs) else obs, "log:", r.get("log"))
